@@ -314,6 +314,12 @@ def r11_4(run):
     # parser chosen by declared type name from config_types
     loops = [n for n in walk_unit(ds) if isinstance(n, ast.For) and dotted(n.iter) == 'config_types']
     ok = bool(loops) and any(isinstance(x, ast.Compare) and '__name__' in src(x) for lp in loops for x in ast.walk(lp))
+    if not ok:
+        # the same as a table: {cls.__name__: cls for cls in config_types} (dict(...) of a generator, or a dict comprehension) looked up
+        # with the declared type name
+        tables = names_defined_by(ds, lambda v: any(isinstance(c_, ast.comprehension) and dotted(c_.iter) == 'config_types' for c_ in ast.walk(v)) and '__name__' in src(v))
+        ok = any((isinstance(x, ast.Subscript) and dotted(x.value) in tables) or (isinstance(x, ast.Call) and callee_attr(x) == 'get' and dotted(receiver(x)) in tables)
+                 for x in walk_unit(ds))
     run.ob('R11.4', ds, ds.node, 'parser instance chosen by the declared type name', ok, slot='parser-by-type', message='_do_setup no longer selects the parser by type name')
     m = run.idx.module(MOD)
     ct = m.assigns.get('config_types')
@@ -501,16 +507,18 @@ def r11_9(run):
     g = cfg_of(cc)
     lt = [t for t in g.live if t.kind == 'test' and isinstance(t.ast, ast.Compare) and dotted(t.ast.comparators[0]) == 'self.list_parsers' and isinstance(t.ast.ops[0], (ast.In, ast.NotIn))]
     run.floor('R11.9', 'list-option tests in _conf_changed', len(lt), 1)
-    wraps = [n for n in g.real_nodes() if n.kind == 'stmt' and isinstance(n.ast, ast.Assign) and isinstance(n.ast.value, ast.Call) and dotted(n.ast.value.func) == '_ListWrapper']
+    # (the wrapped list may be assigned back to the value variable first, or stored into the view directly)
+    wraps = [n for n in g.real_nodes() if n.kind == 'stmt' and isinstance(n.ast, ast.Assign) and isinstance(n.ast.value, ast.Call) and dotted(n.ast.value.func) == '_ListWrapper'
+             and n.ast.value.args and isinstance(n.ast.value.args[0], ast.Name)]
     run.floor('R11.9', 'wrap sites in _conf_changed', len(wraps), 1)
-    V = assigned_targets(wraps[0].ast)[0]
+    V = wraps[0].ast.value.args[0].id
 
     def eff(n):
+        if n in wraps:
+            return 'wrap'
         if n.kind != 'stmt' or not isinstance(n.ast, ast.Assign) or V not in assigned_targets(n.ast):
             return None
         v = n.ast.value
-        if isinstance(v, ast.Call) and dotted(v.func) == '_ListWrapper':
-            return 'wrap'
         if isinstance(v, ast.Call) and callee_attr(v) == 'get' and 'defaults' in (dotted(receiver(v)) or ''):
             return 'default'
         if isinstance(v, ast.Call) and callee_attr(v) == 'parse':
@@ -826,6 +834,7 @@ MUTANTS = [
     M('commalist-returns-str', F, "class CommaList(TorConfigType):\n    def parse(self, s):\n        return [x.strip() for x in s.split(',')]", "class CommaList(TorConfigType):\n    def parse(self, s):\n        return s", ['R11.4']),
 ]
 TWINS = [
+    M('event-list-leg-stores-wrapper-directly', F, "                v = _ListWrapper(\n                    v, functools.partial(self.mark_unsaved, real_name))\n            else:", "                self.config[real_name] = _ListWrapper(\n                    v, functools.partial(self.mark_unsaved, real_name))\n                continue\n            else:"),
     M('port-default-by-membership', F, "                    try:\n                        initial = defaults[name[:-5]]\n                        if not isinstance(initial, list):\n                            initial = [initial]  # just one default line\n                    except KeyError:\n", "                    if name[:-5] in defaults:\n                        initial = defaults[name[:-5]]\n                        if not isinstance(initial, list):\n                            initial = [initial]\n                    else:\n"),
     M('conf-changed-default-bound-lambda', F, "                v = _ListWrapper(\n                    v, functools.partial(self.mark_unsaved, real_name))\n            else:\n                if v == DEFAULT_VALUE:", "                v = _ListWrapper(v, lambda n=real_name: self.mark_unsaved(n))\n            else:\n                if v == DEFAULT_VALUE:"),
     M('conf-changed-not-in', F, "            if real_name in self.list_parsers:\n                # same shape as _do_setup produces: a tracked list,\n                # whether Tor reports zero, one or many values\n                if v == DEFAULT_VALUE:\n                    v = self._defaults.get(real_name, [])\n                elif real_name in self.parsers:\n                    v = self.parsers[real_name].parse(v)\n                if not isinstance(v, list):\n                    v = [v]\n                v = _ListWrapper(\n                    v, functools.partial(self.mark_unsaved, real_name))\n            else:\n                if v == DEFAULT_VALUE:\n                    v = self._defaults.get(real_name, DEFAULT_VALUE)\n                if real_name in self.parsers and v != DEFAULT_VALUE:\n                    v = self.parsers[real_name].parse(v)\n",
